@@ -725,3 +725,17 @@ Proof.
   - simpl. left. split; [reflexivity|]. right. split; [reflexivity|]. split; [vm_compute; discriminate|exact I].
   - repeat constructor; vm_compute; discriminate.
 Qed.
+
+(* hypotheses of put_get_roundtrip_old_partial are satisfiable (two active contacts, pyramidal, one friction row before them) *)
+Example put_get_roundtrip_old_partial_example :
+  let hs := [mkH 3 1 7; mkH 1 5 8] in
+  mj_layout true (0 + 1 + 0) hs /\ Forall (h_ok true 4) hs /\ Forall (fun h => h_adr h <> -1) hs
+  /\ zlen [9; 10; 11; 12; 13; 14] = 0 + 1 + 0 + mj_nrows true hs
+  /\ let v := view_old true 6 8 4 6 0 1 0 1 (put_contacts true 4 2 6 hs) in
+     v_adr v = [1; 5] /\ get_rows (v_nefc v) (v_idx v) (put_row 0 8 [9; 10; 11; 12; 13; 14]) = Some [9; 10; 11; 12; 13; 14].
+Proof.
+  cbv zeta. split; [|split; [|split; [|split; [|split]]]]; try (vm_compute; reflexivity).
+  - simpl. right. split; [reflexivity|]. split; [vm_compute; discriminate|]. right. split; [reflexivity|]. split; [vm_compute; discriminate|exact I].
+  - repeat constructor; vm_compute; discriminate.
+  - repeat constructor; simpl; discriminate.
+Qed.
